@@ -214,10 +214,10 @@ func TestMain(m *testing.M) {
 
 func TestC03(t *testing.T) {
 	h := vlib.New(t, "C03", "exploration",
-		"projects with two or three simultaneous faults (injected into generated documents), templates with >= 2 entries in every internally hashed collection (recursive macros, unused Path properties, undefined types and enums, duplicated path parameters, many declarations of every kind, regex examples), generated valid documents, mutated fixtures, include projects; each run R times in one process (R = 8 quick, 24 thorough) with a fresh JApi, a sample also in two fresh processes and while 8 goroutines process other projects; oracle: identical verdict, message, Error() text, index, line, quote, file, and byte-identical ToJson / ToJsonIndent; non-trivial = rejected with >= 2 faults or accepted with >= 2 entries in a collection; distinct by project",
+		"projects with two or three simultaneous faults (injected into generated documents), templates with >= 2 entries in every internally hashed collection (recursive macros, unused Path properties, undefined types and enums, duplicated path parameters, many declarations of every kind, regex examples), generated valid documents, mutated fixtures, include projects; each run R times in one process (R = 8 quick, 24 thorough) with a fresh JApi, a sample (all three line-end conventions under one file name) also in two fresh processes, one of them in reverse order, and while 8 goroutines process other projects; the same caller-owned file value processed twice with the source bytes and the byte slices returned by ToJson / ToJsonIndent held and compared after later projects; oracle: identical verdict, message, Error() text, index, line, quote, file, and byte-identical ToJson / ToJsonIndent; non-trivial = rejected with >= 2 faults or accepted with >= 2 entries in a collection; distinct by project",
 		"a two-way order dependence escapes R runs with probability 2^-(R-1)", "regex examples are compared only with the fixed-seed option (without it they are random by design)")
 	defer vlib.CleanupScratch()
-	h.Require("accepted", "rejected", "fresh-process-arm", "busy-process-arm", "reused-option-values")
+	h.Require("accepted", "rejected", "fresh-process-arm", "busy-process-arm", "reused-option-values", "caller-owned-buffers", "escape-in-quoted-parameter", "held-output")
 	c03Repeats = h.Pick(8, 24)
 	multi := func(p vlib.Project, info *vlib.Info) *vlib.Failure {
 		f := c03Check(p, info)
@@ -273,6 +273,67 @@ func TestC03(t *testing.T) {
 		return nil
 	})
 
+	// caller-owned inputs and outputs: the same file value processed twice, and
+	// results held while other projects are processed
+	vlib.Rapid(h, "caller-owned-buffers", h.N(1500, 60000), func(t *rapid.T) []string {
+		n := rapid.IntRange(2, 4).Draw(t, "n")
+		var docs []string
+		for i := 0; i < n; i++ {
+			switch rapid.IntRange(0, 3).Draw(t, "src") {
+			case 0:
+				v := rapid.StringOfN(rapid.RuneFrom([]rune(`ab\" #/`)), 1, 12, -1).Draw(t, "value")
+				host := rapid.SampledFrom([]string{"Title", "Version", "BaseUrl", "Path", "Method"}).Draw(t, "host")
+				src, _ := c17Doc(host, c17Quote(c17Value(host, v)), c17Value(host, v))
+				docs = append(docs, src)
+			case 1:
+				docs = append(docs, genMultiFault(t).Files["root.jst"])
+			default:
+				doc := vlib.GenDoc(t, vlib.GenOpts{Macros: rapid.Bool().Draw(t, "macros")})
+				docs = append(docs, vlib.Render(doc, genStyle(t, false)).Text)
+			}
+		}
+		return docs
+	}, func(docs []string, info *vlib.Info) *vlib.Failure {
+		info.NonTrivial = true
+		info.Class("caller-owned-buffers")
+		type held struct {
+			raw, rawIndent   []byte
+			json, jsonIndent string
+		}
+		var hh []held
+		for _, src := range docs {
+			if strings.Contains(src, "\\\"") || strings.Contains(src, "\\\\") {
+				info.Class("escape-in-quoted-parameter")
+			}
+			buf := []byte(src)
+			f := vlib.SharedFile("root.jst", buf)
+			r1, raw, rawIndent := vlib.RunShared(f)
+			if r1.Panic != "" {
+				return nil // C01
+			}
+			if string(buf) != src {
+				return vlib.Failf("caller-bytes-modified", "processing a project changed the caller's source bytes\n--- given:\n%s\n--- afterwards:\n%s", trunc(src, 600), trunc(string(buf), 600))
+			}
+			r2, _, _ := vlib.RunShared(f)
+			if k1, k2 := resultKey(r1), resultKey(r2); k1 != k2 {
+				if hasRecursiveTypes(src) {
+					return vlib.Failf(keyF27, "results differ between two runs of a project with recursive types")
+				}
+				return vlib.Failf("nondeterministic: same file value processed twice", "the same file value processed twice gives different results\n--- first:\n%s\n--- second:\n%s\n--- source:\n%s", trunc(k1, 400), trunc(k2, 400), trunc(src, 1000))
+			}
+			if r1.Accepted {
+				info.Class("held-output")
+				hh = append(hh, held{raw, rawIndent, r1.JSON, r1.JSONIndent})
+			}
+			for i, x := range hh {
+				if string(x.raw) != x.json || string(x.rawIndent) != x.jsonIndent {
+					return vlib.Failf("held-output-overwritten", "the bytes ToJson returned for project %d changed while later projects were processed\n--- as returned:\n%s\n--- now:\n%s", i, trunc(x.json, 300), trunc(string(x.raw), 300))
+				}
+			}
+		}
+		return nil
+	})
+
 	// fresh processes and a busy process: a sample of generated projects
 	nsample := h.N(200, 5000)
 	vlib.Rapid(h, "fresh-and-busy-process", (nsample+49)/50, func(t *rapid.T) []vlib.Project {
@@ -287,6 +348,17 @@ func TestC03(t *testing.T) {
 				doc := vlib.GenDoc(t, vlib.GenOpts{Macros: true})
 				pp = append(pp, vlib.Single(vlib.Render(doc, vlib.Style{}).Text))
 			}
+			// the same file name with another line-end convention
+			switch rapid.IntRange(0, 3).Draw(t, "newline") {
+			case 0:
+				p := pp[len(pp)-1]
+				p.Files = map[string]string{p.Root: strings.ReplaceAll(p.Files[p.Root], "\n", "\r")}
+				pp[len(pp)-1] = p
+			case 1:
+				p := pp[len(pp)-1]
+				p.Files = map[string]string{p.Root: strings.ReplaceAll(p.Files[p.Root], "\n", "\r\n")}
+				pp[len(pp)-1] = p
+			}
 		}
 		return pp
 	}, func(pp []vlib.Project, info *vlib.Info) *vlib.Failure {
@@ -299,14 +371,27 @@ func TestC03(t *testing.T) {
 			solo[i] = resultKey(relResult(vlib.Run(p)))
 		}
 		// two fresh processes
+		// (the second one takes the projects in reverse order, so that state
+		// carried from one project to the next shows as a difference)
 		for round := 0; round < 2; round++ {
-			keys, err := runChildProcess(pp)
+			order := make([]vlib.Project, len(pp))
+			for i := range pp {
+				order[i] = pp[i]
+				if round == 1 {
+					order[i] = pp[len(pp)-1-i]
+				}
+			}
+			keys, err := runChildProcess(order)
 			if err != nil {
 				return vlib.Failf("harness", "child process: %v", err)
 			}
 			for i := range pp {
-				if keys[i] != solo[i] {
-					return freshDiff(pp[i], solo[i], keys[i], "a fresh process")
+				k := keys[i]
+				if round == 1 {
+					k = keys[len(pp)-1-i]
+				}
+				if k != solo[i] {
+					return freshDiff(pp[i], solo[i], k, "a fresh process")
 				}
 			}
 		}
@@ -342,6 +427,9 @@ func TestC03(t *testing.T) {
 
 func freshDiff(p vlib.Project, a, b, where string) *vlib.Failure {
 	key := "nondeterministic: " + where
+	if hasRecursiveTypes(p.Files[p.Root]) && !strings.HasPrefix(a, "OK ") && !strings.HasPrefix(b, "OK ") {
+		key = keyF27
+	}
 	if strings.HasPrefix(a, "OK ") && strings.HasPrefix(b, "OK ") {
 		ja, jb := strings.SplitN(a[3:], "\n", 2)[0], strings.SplitN(b[3:], "\n", 2)[0]
 		if vlib.MaskExamples(ja) == vlib.MaskExamples(jb) {
